@@ -222,6 +222,12 @@ PARTS = {
     "svc_vote": _svc_common({"C17.NotByPong": "C17", "C17.BelowMinimum": "C17", "C17.NoClearMajority": "C17", "C17.SeqNotIncreased": "C17",
                              "C17.InvalidSignature": "C17", "C17.NotAnnounced": "C17"},
         spec="MC_IpVote.tla", mc={"quick": ["MC_IpVote.cfg"], "thorough": ["MC_IpVote.cfg", "MC_IpVote_5.cfg"]},
+        fixed_behaviours=[
+            # a clear majority that emerges on a vote for *another* address: X4 3, Y4 2 (no winner) -> a Y4 voter moves to Z4 -> X4 wins
+            [{"o": "reset", "mode": "ip4", "vote_min": 2, "vote_dur": 120}] + [{"o": "established", "rec": "p%d:1:v4" % k, "dir": "Out"} for k in range(1, 7)]
+            + [{"o": "response_in", "req": "@p%d" % k, "body": {"t": "pong", "seq": 1, "sock": a}} for k, a in ((1, "X4"), (2, "Y4"), (3, "X4"), (4, "Y4"), (5, "X4"))]
+            + [{"o": "advance", "ms": 36001000}, {"o": "response_in", "req": "@p2", "body": {"t": "pong", "seq": 1, "sock": "Z4"}}],
+        ],
         sim={"quick": [dict(cfg="MC_IpVote_sim_ip4.cfg", num=120, depth=40), dict(cfg="MC_IpVote_sim_dual.cfg", num=60, depth=40)],
              "thorough": [dict(cfg="MC_IpVote_sim_ip4.cfg", num=2500, depth=70), dict(cfg="MC_IpVote_sim_dual.cfg", num=1200, depth=70)]},
         required=lambda events: [n for n in ["SocketUpdated", "second-update"] if n not in
